@@ -174,7 +174,10 @@ func (op Multp) Simulate(vm *VM, instr string) error {
 	regDest := get_id(instr[:regBits])
 	regSrc := get_id(instr[regBits : regBits*2])
 
-	if *op.pipeline {
+	// The pipeline phase belongs to the processor executing the instruction, not to the
+	// (process-wide) opcode object: keep it in the VM
+	pipelinePhase, _ := vm.Extra_states["multp_pipeline"].(bool)
+	if pipelinePhase {
 		switch vm.Mach.Rsize {
 		case 8:
 			vm.Registers[regDest] = vm.Registers[regDest].(uint8) * vm.Registers[regSrc].(uint8)
@@ -188,9 +191,9 @@ func (op Multp) Simulate(vm *VM, instr string) error {
 			return errors.New("invalid register size")
 		}
 		vm.Pc = vm.Pc + 1
-		*op.pipeline = false
+		vm.Extra_states["multp_pipeline"] = false
 	} else {
-		*op.pipeline = true
+		vm.Extra_states["multp_pipeline"] = true
 	}
 	return nil
 }
